@@ -18,12 +18,13 @@
    level (data[i], data[index:i-1], data[index:len-1], the fast path data[1:len-1]) is proved equal to
    the structural unescape of Model/Frame.v, hence never panics, and with spare capacity it returns
    the same for every tail: together with the header part the whole of JTMessage.Decode is covered.
+   Fourth part (Model/Total_emb.v, Proofs/Total_emb_proofs.v): T0x0200.Parse with an extension
+   handler installed through CustomAdditionContentFunc (C03_embedded).
    Not covered by a locality theorem: extension 0x66 (locality is refuted: third conjunct of
-   C03_refuted_ext66 in Props/C03_location.v, the known finding); handlers embedded in T0x0200
-   through CustomAdditionContentFunc (oracle only, op extemb). *)
+   C03_refuted_ext66 in Props/C03_location.v, the known finding), alone or embedded. *)
 From JT.Base Require Import Prelude.
-From JT.Model Require Import Location LocationExt Frame Jt1078 Total_base Total_msgs Total_codec Total_cap Total_cap2 Total_unesc.
-From JT.Proofs Require Import Total_cap_proofs Total_cap2_proofs Total_unesc_proofs.
+From JT.Model Require Import Location LocationExt Frame Jt1078 Total_base Total_msgs Total_codec Total_cap Total_cap2 Total_unesc Total_emb.
+From JT.Proofs Require Import Total_cap_proofs Total_cap2_proofs Total_unesc_proofs Total_emb_proofs.
 
 (* the primitives.  Generic lemma: in range with cap = len => same bytes with any tail.  The
    spare-capacity primitives are the real thing: they DO return tail bytes when a slice expression
@@ -92,9 +93,29 @@ Theorem C03_frame_rtp_local :
   (forall d, unescape_chk d = unescape d) /\
   (forall d tail, unescape_cap d tail = unescape d) /\
   (forall d ptail, decode_chk_cap d ptail = decode_chk d) /\
+  (* both halves composed: JTMessage.Decode with the walk at index level (what op c03fseq runs) and with
+     spare capacity behind the frame and behind the unescaped buffer (what op c03ft runs) *)
+  (forall d, frame_decode_chk d = decode_chk d) /\
+  (forall d tail ptail, frame_cap d tail ptail = decode_chk d) /\
   (forall r d tail, rtp_decode_cap r d tail = rtp_decode r d).
-Proof. split. exact unescape_chk_eq. split. exact unescape_local. split. exact frame_local. exact rtp_local. Qed.
+Proof.
+  split. exact unescape_chk_eq. split. exact unescape_local. split. exact frame_local.
+  split. exact frame_decode_chk_eq. split. exact frame_cap_local. exact rtp_local.
+Qed.
 Print Assumptions C03_frame_rtp_local.
+
+(* ---- the README pattern: an extension handler (0x64 0x65 0x67 0x70; kind 102 = 0x66 is the refuted
+        one) installed in T0x0200 through CustomAdditionContentFunc, Model/Total_emb.v.  The handler is
+        called first for every item, on the item's content (a sub-slice whose spare capacity is the
+        following items and the tail), accepts or declines, and keeps its state across items.
+        For every handler state e, every body and every tail: no panic, and the result (location
+        block, Additions with their custom marks, handler afterwards) is the one with nothing behind
+        the body.  This is not a corollary of C03_location_local + C03_ext_local alone: the walk is a
+        different function (handler first, standard decoder only on decline, handler state threaded) ---- *)
+Theorem C03_embedded : forall kind e body tail, kind <> 102 ->
+  t0200_emb kind e body tail = t0200_emb kind e body [] /\ t0200_emb kind e body tail <> Panic.
+Proof. exact t0200_emb_local. Qed.
+Print Assumptions C03_embedded.
 
 (* non-vacuity: the spare-capacity decoders accept what the cap = len decoders accept, with a
    non-empty tail behind the slice *)
@@ -106,5 +127,9 @@ Example C03_local_accepts :
   (* a heartbeat frame whose check byte 0x7d is escaped: unescape walk + header decode behind tails *)
   unescape_cap [126; 0; 2; 0; 0; 1; 35; 69; 103; 137; 1; 0; 247; 125; 1; 126] [1; 2; 3] =
     Ok [0; 2; 0; 0; 1; 35; 69; 103; 137; 1; 0; 247; 125] /\
-  is_ok (decode_chk_cap [126; 0; 2; 0; 0; 1; 35; 69; 103; 137; 1; 0; 247; 125; 1; 126] [126; 9]) = true.
-Proof. vm_compute. repeat split; reflexivity. Qed.
+  is_ok (decode_chk_cap [126; 0; 2; 0; 0; 1; 35; 69; 103; 137; 1; 0; 247; 125; 1; 126] [126; 9]) = true /\
+  is_ok (frame_cap [126; 0; 2; 0; 0; 1; 35; 69; 103; 137; 1; 0; 247; 125; 1; 126] [1; 2; 3] [9]) = true /\
+  (* an accepted 0x64 item (47 bytes) after a mileage item, behind a tail: the handler's content is marked custom *)
+  (exists l its e, t0200_emb 100 (fresh_ext 2) (repeat 0 28 ++ [1; 4; 0; 0; 0; 9; 100; 47] ++ repeat 1 47) [170] = Ok (l, its, e) /\
+     map ei_custom its = [false; true]).
+Proof. vm_compute. repeat split; try reflexivity. eexists _, _, _. split; reflexivity. Qed.
